@@ -286,6 +286,76 @@ def global_state_census(rep):
                    function='mindsdb_sql.parser.ast.select.identifier:get_reserved_words')
 
 
+def reserved_interference(rep):
+    """rely/guarantee obligation for the one shared mutable set (threads clause): another thread may be anywhere inside its own first call of
+    get_reserved_words, i.e. the shared set may hold the initial words plus ANY PREFIX of the words that call adds, in the order it adds them.
+    For every such state the function must still return the complete set (it may not conclude from the presence of some word that the set is
+    complete). The real function is run on each of these states (exhaustive over the prefixes: that is the whole interference space of a second
+    thread that executes the same code)."""
+    from mindsdb_sql.parser.ast.select import identifier as idmod
+    fn = 'mindsdb_sql.parser.ast.select.identifier:get_reserved_words'
+    oid = 'C20.reserved.partial-fill'
+    clause = 'forall prefixes P of the insertion sequence: shared set = initial + P  =>  get_reserved_words() returns a superset of the complete set'
+    full0 = set(idmod.get_reserved_words())
+    shared_name = next((k for k, v in vars(idmod).items() if v is idmod.get_reserved_words() and isinstance(v, set)), None)
+    if shared_name is None:
+        rep.proved(oid, 'frames', 'get_reserved_words does not hand out a module-level set (no shared state to interfere with)', function=fn, clause=clause)
+        return
+    # the initial content: the literal the module assigns
+    tree = repo.module_ast('mindsdb_sql.parser.ast.select.identifier')
+    initial = None
+    for st in tree.body:
+        if isinstance(st, ast.Assign) and any(isinstance(t, ast.Name) and t.id == shared_name for t in st.targets):
+            try:
+                initial = set(ast.literal_eval(st.value))
+            except Exception:
+                initial = None
+    if initial is None:
+        rep.undecided(oid, 'frames', f'initial value of {shared_name} is not a literal', function=fn, clause=clause)
+        return
+    saved = getattr(idmod, shared_name)
+    order = []
+
+    class Rec(set):
+        def add(self, x):
+            if x not in self:
+                order.append(x)
+            set.add(self, x)
+
+        def update(self, *xs):
+            for it in xs:
+                for x in it:
+                    self.add(x)
+    bad = None
+    try:
+        setattr(idmod, shared_name, Rec(initial))
+        full = set(idmod.get_reserved_words())
+        if not full >= full0 - initial and full != full0:
+            pass
+        step = max(1, len(order) // 400)
+        ks = sorted(set(range(0, len(order) + 1, step)) | {1, 2, len(order) - 1, len(order)})
+        for k in ks:
+            if k < 0 or k > len(order):
+                continue
+            setattr(idmod, shared_name, set(initial) | set(order[:k]))
+            got = set(idmod.get_reserved_words())
+            if not got >= full:
+                missing = sorted(full - got)
+                bad = (k, order[:k][-3:], missing[:5], len(missing))
+                break
+    finally:
+        setattr(idmod, shared_name, saved)
+        saved.update(full0)
+    if bad:
+        k, last, miss, nm = bad
+        rep.failed(oid, 'frames', f'with the shared set holding the initial words and the first {k} added words (… {last}), the call returns a set that lacks {nm} reserved words, e.g. {miss}: '
+                   'a thread that renders while another thread is inside its first call leaves these names unquoted', function=fn, clause=clause,
+                   replay={'input': f'{shared_name} = initial literal + first {k} of the {len(order)} words a call adds; get_reserved_words()', 'fires': True,
+                           'observed': f'{nm} words missing, e.g. {miss}', 'expected': 'the complete set'})
+    else:
+        rep.proved(oid, 'frames', f'{len(ks)} interference states (prefixes of the {len(order)}-word insertion sequence): the complete set is returned from each', function=fn, clause=clause)
+
+
 def replay_class_state(m, cname, name):
     """history witness: render one identifier for two dialects in both orders in fresh interpreters; the class-level container must not make the second render depend on the first"""
     code = (
@@ -458,7 +528,7 @@ def seed_obligations(rep):
 
 # ------------------------------------------------------------------ bounded: hash seeds and call order
 DIGEST_SCRIPT = r'''
-import sys, hashlib, json, random
+import sys, hashlib, json, random, re
 sys.path.insert(0, sys.argv[1])
 sys.dont_write_bytecode = True
 from mindsdb_sql import parse_sql
@@ -467,9 +537,9 @@ from mindsdb_sql.render.sqlalchemy_render import SqlalchemyRender
 inputs = json.load(open(sys.argv[2]))
 order = list(range(len(inputs)))
 random.Random(int(sys.argv[3])).shuffle(order)
-out = {}
-for i in order:
-    sql, dialect = inputs[i]
+
+
+def evaluate(sql, dialect):
     try:
         q = parse_sql(sql, dialect=dialect)
         r = 'T:' + q.to_tree() + '|S:' + str(q)
@@ -485,9 +555,18 @@ for i in order:
                 r += '|RE:' + type(e).__name__
     except Exception as e:
         r = 'E:' + type(e).__name__ + ':' + str(e)
-    import re as _re
-    r = _re.sub(r' at 0x[0-9a-fA-F]+', '', r)          # default object reprs carry addresses: not behaviour
-    out[i] = hashlib.sha1(r.encode()).hexdigest()
+    r = re.sub(r' at 0x[0-9a-fA-F]+', '', r)          # default object reprs carry addresses: not behaviour
+    return hashlib.sha1(r.encode()).hexdigest()
+
+
+out = {}
+for i in order:
+    out[i] = evaluate(*inputs[i])
+# every input a second time in this process, in the reverse order: a result that differs from the first evaluation depends on what the process
+# did before (caches, registries, module-level state)
+for i in reversed(order):
+    if evaluate(*inputs[i]) != out[i]:
+        out['history:%d' % i] = 'second evaluation in this process differs'
 print(json.dumps(out))
 '''
 
@@ -502,7 +581,8 @@ def bounded(rep, tier):
         if len(toks) > 2:
             bad.append((' '.join(toks[:-1]), dn))
             bad.append((' '.join(toks[:1] + toks[2:]), dn))
-    inputs = good + bad + [('select a from t', 'mysql'), ('select a from', 'mysql'), ('select a from t', 'sqlite')]
+    inputs = good + bad + [('select a from t', 'mysql'), ('select a from', 'mysql'), ('select a from t', 'sqlite'), ('CREATE TABLE int1.tbl (a int, b text)', 'mindsdb'), ('DROP TABLE int1.tbl', 'mindsdb'),
+                           ('CREATE TABLE tbl (a int)', 'mindsdb'), ('CREATE TABLE tbl (b int, c int)', 'mindsdb'), ('DROP TABLE tbl', 'mindsdb'), ('INSERT INTO tbl (a) VALUES (1)', 'mindsdb'), ('UPDATE tbl SET a = 1', 'mindsdb')]
     tmp = tempfile.mkdtemp(prefix='vc20_')
     try:
         inp = os.path.join(tmp, 'inputs.json')
@@ -523,6 +603,16 @@ def bounded(rep, tier):
                 results[k] = {'error': err[-300:]}
         base = results[seeds[0]]
         n = 0
+        for k in seeds:
+            hist = [i for i in results[k] if str(i).startswith('history:')]
+            if hist:
+                j = int(str(hist[0]).split(':')[1])
+                rep.add_bounded(Bounded('C20.bounded.history-dependence', False, inputs[j][0], f'evaluated twice in one process (PYTHONHASHSEED={k}, other inputs in between): the second result differs from the first',
+                                        'identical result', bound=f'{len(inputs)} inputs x 2 evaluations'))
+                break
+        for k in seeds:
+            for i in [i for i in results[k] if str(i).startswith('history:')]:
+                results[k].pop(i)
         for k in seeds[1:]:
             for i, h in base.items():
                 n += 1
@@ -553,6 +643,7 @@ def check(rep, tier):
     frame_obligations(rep)
     global_state_census(rep)
     catalog_obligations(rep)
+    reserved_interference(rep)
     seed_obligations(rep)
     bounded(rep, tier)
     rep.notes.append('Non-interference frames proved for the entry points; catalog writes are a known finding; schedules not explored.')
